@@ -80,7 +80,7 @@ impl TrackAttributesUpdate<HAttrs> for HUpdate {
     fn apply(&self, attrs: &mut HAttrs) -> Result<()> {
         // mutate first, fail afterwards: a faithful rollback has to undo the partial change
         attrs.updates += 1;
-        attrs.counter = (attrs.counter + self.add) % 3;
+        attrs.counter = (attrs.counter + self.add) % 4;
         if let Some(g) = self.group {
             attrs.group = g;
         }
@@ -120,7 +120,7 @@ impl TrackAttributes<HAttrs, f32> for HAttrs {
 
     fn merge(&mut self, other: &HAttrs) -> Result<()> {
         self.merges += 1;
-        self.counter = (self.counter + other.counter) % 3;
+        self.counter = (self.counter + other.counter) % 4;
         if PLAN.with(|p| p.get()).fail_attr_merge {
             return Err(anyhow!("injected: attributes merge"));
         }
@@ -128,10 +128,12 @@ impl TrackAttributes<HAttrs, f32> for HAttrs {
     }
 
     fn baked(&self, _observations: &ObservationsDb<f32>) -> Result<TrackStatus> {
-        Ok(match self.counter % 3 {
+        // a fourth state in which the status cannot be computed at all (user-defined attributes may fail here)
+        Ok(match self.counter % 4 {
             0 => TrackStatus::Pending,
             1 => TrackStatus::Ready,
-            _ => TrackStatus::Wasted,
+            2 => TrackStatus::Wasted,
+            _ => return Err(anyhow::anyhow!("status unavailable")),
         })
     }
 }
